@@ -24,9 +24,9 @@ ASSUMPTIONS = [
     "(the statement speaks of what quantities subsequently report)",
 ]
 BOUNDS = {
-    "quick": "graphs: struct, data, inv x {rect, rect+func, rect+rect} x {mapping, w-tilde}, defaults, rng; histories to depth 3 "
-             "(struct/defaults/rng) or 2-3 (data/inv) with state de-duplication",
-    "thorough": "same graphs, depth 4 (struct, rng, defaults) / 3 (data, inv); two masks",
+    "quick": "graphs: struct, data, inv x {rect, rect+func, rect+rect, del+funcS} x {mapping, w-tilde} + positive solver, fit x 3, defaults, rng; "
+             "history depth struct 4, fit 4, data 3, rng 3, defaults 3, inv 2, with state de-duplication",
+    "thorough": "same graphs plus second mask variants of struct and data; depth struct 6, fit 6, data 4, rng 4, defaults 4, inv 3",
 }
 
 # ======================================================================================== helpers
@@ -672,8 +672,8 @@ def graph_keys(tier, seed):
 def depth_for(key, tier):
     kind = key[0]
     if tier == "quick":
-        return {"struct": 2, "rng": 3, "defaults": 3, "data": 2, "inv": 2, "fit": 2}[kind]
-    return {"struct": 3, "rng": 4, "defaults": 4, "data": 3, "inv": 3, "fit": 3}[kind]
+        return {"struct": 4, "rng": 3, "defaults": 3, "data": 3, "inv": 2, "fit": 4}[kind]
+    return {"struct": 6, "rng": 4, "defaults": 4, "data": 4, "inv": 3, "fit": 6}[kind]
 
 
 _G = {}
